@@ -75,7 +75,7 @@ func C09_Middleware() {
 
 	loggedIn := pre[authboss.SessionKey].ok
 	deadline := time.Unix(stampSec, 0).Add(expireAfter)
-	expired := verif.And(verif.And(loggedIn, hasStamp), !tb.Before(deadline)) // every clock reading is at/after the deadline
+	expired := verif.And(verif.And(loggedIn, hasStamp), tb.After(deadline)) // every clock reading is after the deadline ("more than ExpireAfter"; the exact instant is left open by the statement)
 	fresh := verif.And(loggedIn, verif.Or(!hasStamp, ta.Before(deadline)))    // every clock reading is before the deadline
 	verif.Witness(expired, "expired-session")
 	verif.Witness(verif.And(fresh, hasStamp), "fresh-session")
@@ -189,7 +189,7 @@ func C09_TwoRequests() {
 	tb := time.Now().UTC()
 	w.Serve(h, world.Request("GET", "/two", ""))
 	ta := time.Now().UTC()
-	expired := !tb.Before(deadline)
+	expired := tb.After(deadline) // "more than ExpireAfter": the exact deadline instant is left open by the statement
 	fresh := ta.Before(deadline)
 	verif.Witness(expired, "second-request-after-the-deadline")
 	verif.Witness(fresh, "second-request-before-the-deadline")
